@@ -232,8 +232,13 @@ class Gen:
                 refs.insert(rng.randint(0, len(refs)), {"h": hc})
         if self.allow_fixed_obj and not big and rng.random() < 0.12:
             # a component fixed to an instance of a user class (as after `model.lens = result.instance.lens`)
-            cls = rng.choice(["P1", "P2", "P3"])
-            refs.insert(rng.randint(0, len(refs)), {"obj": cls, "kw": {a: _finite(rng) for a in CLS_ARGS[cls]}})
+            cls = rng.choice(["P1", "P2", "P3", "Lst"])
+            if cls == "Lst":
+                # a list long enough for positions 10, 11 ... to sort before 2 as strings
+                kw = {"values": [round(rng.uniform(-9, 9), 3) for _ in range(rng.choice([2, 11, 12, 13]))], "k": _finite(rng)}
+            else:
+                kw = {a: _finite(rng) for a in CLS_ARGS[cls]}
+            refs.insert(rng.randint(0, len(refs)), {"obj": cls, "kw": kw})
         if form == "list":
             self.prog.append({"op": "coll_list", "h": h, "items": refs})
         elif form == "append":
